@@ -25,6 +25,8 @@ def texpr(t, f=None):
     elif k == 'obj':
         out = {'k': 'obj', 'name': t['name'], 'ns': t['ns'], 'fields': [[x['n'], texpr(x['t'], x)] for x in t['fields']],
                'base': texpr(t['base']) if t.get('hasbase') else None}
+        if 'tname' in t:
+            out['tname'] = t['tname']
     elif k == 'arr':
         out = {'k': 'arr', 'of': texpr(t['of'])}
     elif k == 'attr':
@@ -173,7 +175,10 @@ def from_native(t, x, repeated=False):
     if k == 'obj':
         name = type(x).get_type_name() if hasattr(type(x), 'get_type_name') else type(x).__name__
         vals = []
-        rt = next((s for s in t.get('subs') or [] if s['name'] == name), t)
+        xns = type(x).get_namespace() if hasattr(type(x), 'get_namespace') else None
+        rt = next((s for s in t.get('subs') or [] if s.get('tname', s['name']) == name and ('tname' not in s or s['ns'] == xns)), t)
+        if 'tname' in rt:
+            name = rt['name']            # the model's name of the class (its public type name is shared with another class)
         for f in flat_fields(rt):
             y = getattr(x, f['n'], None) if not isinstance(x, dict) else x.get(f['n'])
             vals.append(from_native(f['t'], y, repeated=f['max'] > 1))
